@@ -91,8 +91,10 @@ def evict_cache(keep=10):
     except OSError:
         return
     ents.sort(reverse=True)
-    for _, e in ents[keep:]:
-        if e != tree_hash():
+    now = time.time()
+    for mt, e in ents[keep:]:
+        # never a state touched within the last two hours: another check (self-test of a patched tree) may be using it
+        if e != tree_hash() and now - mt > 7200:
             shutil.rmtree(os.path.join(CACHE, e), ignore_errors=True)
 
 
